@@ -382,8 +382,19 @@ static void c19_call(C19& st, const EP& ep, const char* data, size_t n, const ch
             std::string("{\"kind\":\"codec\",\"mode\":\"c19\",\"entry\":\"") + ep.name + "\",\"b0\":" + std::to_string(ep.b0) + ",\"hex\":\"" + rep::hex(w.substr(0, 280)) + "\",\"len\":" + std::to_string(n) + "}"); return; }
         if (placement == 0) {
             if (o.accepted) st.accepted++; else st.rejected++;
-            if (o.accepted && n < 4000) { // lenient acceptances are recorded, not judged (see DESIGN 6, C19)
-                Bytes w; w.push_back(char(ep.b0)); ref::put_varint(w, uint32_t(n)); w.append(data, n); auto r = ref::decode(w); if (r.st != ref::D_OK) st.lenient++; }
+            if (o.accepted && n < 4000) {
+                // differential: what the decoder accepts must at least be parseable (structural mode of the reference:
+                // framing, lengths, property ids/types, trailing bytes - no UTF-8 content / value-range rules, DESIGN 6.1)
+                Bytes w; w.push_back(char(ep.b0)); ref::put_varint(w, uint32_t(n)); w.append(data, n);
+                uint8_t t = ep.b0 >> 4; bool judged = t != ref::PUBLISH;   // PUBLISH bodies end in a verbatim payload; flags/QoS 3 are checked by the caller of the decoder
+                ref::DResult r; { ref::StructuralScope sc; r = ref::decode(w); }
+                if (r.st != ref::D_OK && judged && r.why != "reason code" && r.why != "fixed header flags" && r.why != "packet id") {
+                    std::string why = r.why; for (auto& ch : why) if (ch == ' ' || ch == ':') ch = '-';
+                    add_violation(std::string("C19:decoder-accepts-unparseable:") + ref::ptype_name(t) + ":" + why.substr(0, 40), std::string("decoder for ") + ep.name + " accepted a body the reference cannot parse (" + r.why + ", origin " + origin + ")",
+                        std::string("{\"kind\":\"codec\",\"mode\":\"c19\",\"entry\":\"") + ep.name + "\",\"b0\":" + std::to_string(ep.b0) + ",\"hex\":\"" + rep::hex(w.substr(w.size() - n, 280)) + "\",\"len\":" + std::to_string(n) + "}");
+                }
+                if (r.st != ref::D_OK) st.lenient++;
+            }
         }
     }
 }
